@@ -123,6 +123,13 @@ def shard(ctx, budget_s):
         fs = [e.echo(rng.getrandbits(16), rng.getrandbits(16), rng.choice([b"\xff" * n, bytes(rng.getrandbits(8) for _ in range(n))])) for n in lens]
         for f, r in zip(fs, ctx.send_many(fs)):
             on_reply(f, r, "echosweep")
+    # directed: the largest replies that can be elicited - DNS queries with hundreds of questions (reply ~3.4x the request)
+    e = gen.endp(rng, cfg, False)
+    for nq in (1, 100, 300, 400 + ctx.shard * 10, 569):
+        qs = b"".join(dns.question([bytes([97 + (i % 26)])]) for i in range(nq))
+        f = e.udp(gen.rnd_port(rng), gen.rnd_port(rng), dns.header(rng.getrandbits(16), 0x0100, nq) + qs)
+        if len(f) <= 4096:
+            on_reply(f, ctx.send(f), "bigdns")
     n = 0
     while time.time() < deadline or n == 0:
         cfg = gen.rnd_config(rng, deny=False, logger="n", level=0)
